@@ -72,6 +72,30 @@ STREAMS (requests to the Lean driver drv_c03)
               tempo_number_roundtrip_exponent (normal number, well-formed literal, text inside the rounding interval of the tempo:
               `closeTo`) and its conclusion must all hold: "the exporter wrote enough digits"
   arts / dyns the enumeration `Artic` == exporter's ARTICULATIONS == what get_articulations reads; `dynTable` == DYN_DIRECTIONS
+ barlines, harmony, print, part list (Model/XmlBar.lean, Model/XmlPartList.lean) and positions (Model/XmlTrace.lean):
+  wbar        the fermatas / repeats / endings do_barlines iterates over in a segment (the `iter_all` calls are mirrored,
+              nothing else) -> `doBarlines` (selection of fermatas by `ref`, grouping by onset, sorting, location, children)
+              must give the (onset, <barline>) list do_barlines returns
+  cbar        the children of every <barline> written -> `writeBarline` must give the element, `BarSimple` the harness's own
+              count, and `itemsOfRead (readBarline …)` the fermata / first repeat / first ending (barline_items_recovered)
+  bars        <measure> elements that hold only <backup>/<forward>/<barline> (the written part reduced to them, and generated
+              sequences, malformed ones included) -> `readBarMeasures` must give the repeats, endings, barline fermatas and bar
+              styles the importer's own _handle_measure puts on a scratch part (positions, pairing through `ongoing`,
+              backward without forward, stop without start, missing location, discontinue …)
+  wharm / rharm / charm   RomanNumeral / ChordSymbol / Cadence -> `writeHarmony` == the element do_harmony built;
+              any <harmony> (written or generated) -> `readHarmony` == what _handle_harmony adds ("err" when it raises);
+              `canonHarmony` (right-hand side of harmony_roundtrip) == that too
+  wprint / prints   page and system onsets -> `doPrints` == do_prints; <print> elements with the starts of their measures ->
+              `readPrints` == pages and systems (number, start, end) _handle_print makes on a scratch part
+  wpl / rpl   the parts with their parent chains (object identities numbered) -> `writePartList`+`plXml` == the children
+              of the <part-list> written; any children of a <part-list> (written or generated: stops without start,
+              unclosed groups, other tags) -> `parsePartList` == the structure _parse_partlist returns ("err" when it raises)
+  otr         events of a written measure -> `readOthers` (position and measure_maxtime at every non-note child) must give
+              the onsets do_attributes/do_directions/do_barlines/do_harmony/do_prints wrote them for, in document order, each
+              with position <= maxtime <= end of the measure (theorem others_in_place)
+ literal data (harness/translate_c03.py -> Gen/C03Tables.lean, Props/C03Gen.lean): the exporter's / importer's tables and
+ the elements the live save_musicxml writes for a probe score are regenerated on every run; the theorems *_probes /
+ *_table(s) state that the model writers give exactly these trees
 ORACLE (Python only): abstract(load(save(s))) == abstract(s) field by field; save(load(save(s))) == save(s);
 an independent interpretation of the written file in quarter notes (divisions, backup/forward, chord, grace, ties
 by pitch and adjacency) == the sounding notes and measure extents of the score; in the document no two open
@@ -82,7 +106,8 @@ change); per note/rest/unpitched/grace note: class, id, start, end, voice, staff
 notes), tie_next/tie_prev, articulations, fingerings (all of them), stem, note fermata, step/octave/alter, grace type and
 grace_next/grace_prev, notehead and its filled flag; slurs and tuplets (start/end note, times, the tuplet's four values);
 directions (class, text, raw text, staff, end, wedge, line: dynamics, wedges, dashes words, tempo/constant words, pedals); Words;
-tempi (quarter tempo, incl. non-whole and dotted units); repeats; endings (number); barline fermatas; harmony.
+tempi (quarter tempo, incl. non-whole and dotted units); repeats; endings (number); barline fermatas; harmony (roman numerals,
+chord symbols with kind and bass); cadences.
 """
 import io
 import os
@@ -94,15 +119,22 @@ from core import Eval
 
 PROPERTY = "C03"
 DRIVER = "drv_c03"
-PROPS = ["PartituraModel.Props.C03", "PartituraModel.Props.C03Codec"]
+PROPS = ["PartituraModel.Props.C03", "PartituraModel.Props.C03Codec", "PartituraModel.Props.C03Bar",
+         "PartituraModel.Props.C03PartList", "PartituraModel.Props.C03Gen", "PartituraModel.Props.C03Place",
+         "PartituraModel.Props.C03DirRead", "PartituraModel.Props.C03Fixpoint"]
 TRUSTED = [
     "lxml serialisation/parsing (etree.tostring pretty_print, XMLParser remove_blank_text) is the identity on element trees whose "
     "texts are not blank; find/findall/xpath/iteration = `find`/`findall`/`findPath` of Model/XmlNote.lean",
     "Part.iter_all order inside a time point (class registry order) is taken from the implementation as input of the writer model",
-    "which objects do_attributes/do_directions/do_barlines/do_harmony/do_prints turn into elements and at which time (the loop "
-    "structure) is mirrored in the harness; the elements themselves are modelled for <direction>, <sound>, <attributes> "
-    "(streams wdir/wsound/wattr) and opaque for <barline>, <harmony>, <print>; the split of a measure into divisions segments is "
-    "recomputed in the harness and checked through stream lin",
+    "which objects do_attributes/do_directions turn into elements and at which time (the loop structure) is mirrored in the "
+    "harness, the elements themselves are modelled (streams wdir/wsound/wattr); for do_barlines/do_harmony/do_prints only the "
+    "`iter_all` calls are mirrored and everything after them is in the model (wbar/wharm/wprint); the split of a measure into "
+    "divisions segments is recomputed in the harness and checked through stream lin",
+    "PartGroup / Part objects as values with an identity number (`pg in group_stack`, `pg == group_stack[-1]` compare "
+    "objects); `e.xpath('part-name/text()')` = the non-empty texts of the part-name children; str.upper / re.findall('[A-Z]+') "
+    "of score.Cadence on ASCII letters (`Char.toUpper`, `Char.isUpper`)",
+    "harness/translate_c03.py: the probe score and its Lean counterpart in Props/C03Gen.lean are written by hand; a mismatch "
+    "between them can only make a theorem fail, never pass",
     "estimate_symbolic_duration / parse_direction / to_quarter_tempo are used as given (C12 covers the duration tables); "
     "parse_direction is opaque in the model (`DirItem.words` carries the text)",
     "Python str(int)/int(str) = showIntC/parseIntC (plain decimal forms; underscores, non-ASCII digits not modelled); "
@@ -114,15 +146,26 @@ TRUSTED = [
     "Python dict (ongoing, counters) as a finite map; list.sort stable",
 ]
 PARTIAL = [
-    "byte-level fixpoint save(load(save(s))) == save(s) is compared on every case, not proved",
-    "element codecs of <barline> (repeat, ending, fermata), <harmony>, <print>, <part-list> are compared field by field through "
-    "the round trip, not modelled in Lean; note_roundtrip / direction_roundtrip / tempo_roundtrip / attributes_roundtrip cover "
-    "<note>, <direction>, <sound tempo>, <attributes>",
+    "byte-level fixpoint save(load(save(s))) == save(s) is compared on every case; proved is its element-level part "
+    "(note_fixpoint, direction_fixpoint, tempo_fixpoint, barline_fixpoint, harmony_fixpoint, print_fixpoint: writing what was "
+    "read from a written element gives the element again; partlist_fixpoint: the whole part list), not the re-linearisation "
+    "of a measure, <attributes>, nor lxml's serialisation",
+    "the completion of half-open repeats and endings at the end of _parse_parts (measure_map / searchsorted heuristics) is not "
+    "modelled: the exporter writes none, and `repeats_paired` / `endings_paired` assume the calls come in pairs (what "
+    "non-overlapping repeats give; MusicXML has one <repeat> and one <ending> per barline and no nesting); that the document "
+    "presents them in that order is checked by stream bars and the oracle, not proved",
+    "`barlines_written` / `barline_position` speak about one divisions segment = one measure; a repeat, ending or barline "
+    "fermata on a mid-measure change of divisions gets the location of the segment (outside the oracle's domain)",
+    "pages and systems: the <print> codec is proved (print_roundtrip), the numbering state machine `readPrints` is compared "
+    "only (pages and systems are not in the property's list)",
+    "partlist_roundtrip / partlist_fixpoint are about forests whose groups all contain a part (a group without parts never "
+    "reaches the file: the exporter walks up from the parts) and whose groups are different objects",
     "not modelled inside the modelled elements (the exporter writes none of them): <accidental> fallback for alter, <beam>, "
     "ornaments, steal-time attributes of <grace>, <transpose>, <sound> children of <direction>, octave-shift, metronome; "
     "float literals other than digits[.digits][e[+-]digits] (signs, blanks, E, inf, nan, underscores)",
-    "wedges_paired is about `slotAll` (ongoing[(kind, number)] as a finite map), tied to _handle_direction by stream slots; that "
-    "`readDirections` (the full element-by-element model, stream dirs) refines it is not proved; pedal pairing is compared only",
+    "wedges_read / dashes_read / pedals_read are about elements of the shapes the exporter writes (`canonDir`: one object per "
+    "element, words with at most one dashes start); <direction> elements of other shapes (several <direction-type> of one "
+    "kind, octave-shift, …) are covered by stream dirs only",
     "numbers_distinct speaks about the order in which the exporter meets the ranges; that document-open wedges are counter-open "
     "when a new wedge is numbered (fix C03-6) is checked on the bytes by the oracle, not proved",
     "that the `<staves>` value is the number of staves is not claimed: do_attributes writes len() of a list that leaks out of a "
@@ -138,23 +181,33 @@ RULE = ("seeded structured scores (1-3 parts, nested groups, 1-3 staves, 1-4 voi
         "pedals, "
         "repeats/endings, barline and note fermatas, all sixteen articulations and unknown ones, 1-3 fingerings, stems, explicit "
         "symbolic durations with dots and tuplet ratios, unpitched notes with noteheads, clefs with octave change and without "
-        "line, key modes, harmony) + a family of one-voice scores in which every NUMBER printed is large (gen_numeric: a tempo "
+        "line, key modes, harmony: roman numerals, chord symbols with and without kind and bass, cadences; two repeats meeting "
+        "at a barline, repeats and endings that start or end inside a measure, barline fermatas without location) "
+        "+ a family of one-voice scores in which every NUMBER printed is large (gen_numeric: a tempo "
         "in every measure, divisions up to 3628800 so that durations/backup/forward have 7-8 digits, measure names, "
         "fingerings and ending numbers of many digits, octaves 0-9, alter up to 3, time signatures 33/32, 128/128) "
+        "+ element-level cases (gen_elems: measures of backup/forward/barline with any location, several repeats/endings of "
+        "any type, bar styles, fermatas; <harmony> with function texts with 0-2 bars, with and without kind/root/bass; <print> "
+        "sequences; <part-list> children balanced or not, nested three deep, stray stops, other tags: `branches` in the "
+        "distribution counts the outcomes) "
         "+ hand-written corpus (witnesses of all repaired defects) + every tests/data/musicxml "
         "fixture (load, then the same checks); distinct = distinct structural signature (parts, voices, features used, notes); "
         "non-trivial = more than two notes or two voices or a feature")
 LEVEL_TEXT = ("Lean 4 theorems over all measure contents / event streams about executable models of the exporter's measure "
               "linearisation and voice clean-up, of an independent MusicXML measure reader and of the importer's reader, of "
               "range numbering, pairing by number (slurs, tuplets, wedges, dashes) and tie pairing, and over all field values "
-              "about the element codecs of <note>, <direction>, <sound tempo> and <attributes> (what the importer extracts from "
-              "the element the exporter writes is exactly what the object denotes), and over all binary64 numbers and "
+              "about the element codecs of <note>, <direction>, <sound tempo>, <attributes>, <barline>, <harmony>, <print> and "
+              "the <part-list> (what the importer extracts from the element the exporter writes is exactly what the object "
+              "denotes; every forest of parts and nested groups is written as its bracket sequence and parsed back as itself; "
+              "do_barlines loses and moves nothing; repeats and endings are paired through `ongoing`), about the position at "
+              "which every non-note child of a measure is read (the onset it was written for), and over all binary64 numbers and "
               "rationals about the decimal-text round trip of a tempo (correct rounding returns the number in whose rounding "
               "interval the text lies, 17 significant digits always lie in it, a text further than half an ulp away is read "
               "as another number); the models are tied to partitura by "
               "differential runs on generated scores (writer models vs. the elements and bytes written, reader models vs. "
               "load_musicxml, vs. the importer's own handlers on scratch parts and vs. the score, the theorems' hypotheses "
-              "evaluated on every measure and element, the constant tables compared with the live ones), and the round trip "
+              "evaluated on every measure and element, the constant tables and the elements of a probe score regenerated from the "
+              "live source on every run and compared with the model writers by theorems), and the round trip "
               "and byte fixpoint are checked directly on every case and every MusicXML fixture of the repository.")
 
 REPO = os.environ.get("VERIF_REPO", "/repo")
@@ -517,6 +570,15 @@ def gen_extras(rng, d, nstaves):
         if r() < 0.5 and j + 1 < len(meas):
             ex.append(["Ending", meas[j][0], meas[j][1], {"number": 1}])
             ex.append(["Ending", meas[j + 1][0], meas[j + 1][1], {"number": 2}])
+        if r() < 0.3 and j + 1 < len(meas):
+            # a second repeat right behind the first: backward and forward repeat meet at one barline time
+            ex.append(["Repeat", meas[j + 1][0], meas[rng.randrange(j + 1, len(meas))][1], {}])
+    elif r() < 0.08 and len(inner) >= 2:
+        # a repeat (or an ending) that starts and / or ends inside a measure: <barline location="middle">
+        a, b = span()
+        ex.append([rng.choice(["Repeat", "Repeat", "Ending"]), a, b, {}])
+        if ex[-1][0] == "Ending":
+            ex[-1][3]["number"] = rng.choice([1, 2, "1, 2"])
     if r() < 0.2:
         m = rng.choice(meas)
         ex.append(["Fermata", m[0], None, {"ref": "left"}])
@@ -526,16 +588,23 @@ def gen_extras(rng, d, nstaves):
             ex.append(["Fermata", rng.choice(cand), None, {"ref": "middle"}])
     if r() < 0.15:
         ex.append(["Fermata", total, None, {"ref": "right"}])
+    if r() < 0.03:
+        ex.append(["Fermata", rng.choice(inner + [total]), None, {"ref": None}])  # outside the domain: no location
     for _ in range(rng.choice([0, 0, 0, 1, 2])):
         a, b = span()
         # pedals do not overlap one another (a single pedal line)
         if all(not (e[0] == "SustainPedalDirection" and a < e[2] and e[1] < b) for e in ex):
             ex.append(["SustainPedalDirection", a, b, {"line": r() < 0.5, "staff": staff()}])
-    for _ in range(rng.choice([0, 0, 0, 1, 2])):
-        if r() < 0.5:
-            ex.append(["RomanNumeral", rng.choice(inner), None, {"text": rng.choice(["I", "V7", "ii6", "IV", "viio"])}])
+    for _ in range(rng.choice([0, 0, 0, 1, 2, 3])):
+        r3 = r()
+        if r3 < 0.4:
+            ex.append(["RomanNumeral", rng.choice(inner), None, {"text": rng.choice(["I", "V7", "ii6", "IV", "viio", "V65", "N6"])}])
+        elif r3 < 0.8:
+            ex.append(["ChordSymbol", rng.choice(inner), None, {"root": rng.choice("CDEFGAB"), "kind": rng.choice(["maj7", "m", "7", "dim", None, ""]),
+                                                                "bass": rng.choice([None, None, "E", "Bb"])}])
         else:
-            ex.append(["ChordSymbol", rng.choice(inner), None, {"root": rng.choice("CDEFGAB"), "kind": rng.choice(["maj7", "m", "7", "dim"])}])
+            # (the constructor keeps the first run of letters, upper case, when it is one of the six cadence names)
+            ex.append(["Cadence", rng.choice(inner), None, {"text": rng.choice(["PAC", "IAC", "HC", "pac", "hc:", "DC", "EC", "PC", "x iac"])}])
     if r() < 0.01:
         ex.append(["Words", rng.choice(inner), None, {"text": rng.choice(PLAIN_WORDS)}])
 
@@ -863,6 +932,7 @@ def abstract_part(part):
     A["endings"] = _srt(((o.start.t if o.start else None, o.end.t if o.end else None, str(o.number)) for o in part.iter_all(S.Ending)))
     A["barline_fermatas"] = _srt(((o.start.t, o.ref) for o in part.iter_all(S.Fermata) if not isinstance(o.ref, S.TimedObject)))
     A["harmony"] = _srt(((o.start.t, type(o).__name__, getattr(o, "text", None)) for o in part.iter_all(S.Harmony, include_subclasses=True)))
+    A["cadences"] = _srt(((o.start.t, o.text) for o in part.iter_all(S.Cadence)))
     return A
 
 
@@ -1511,6 +1581,464 @@ def dyn_table(ev, X):
         X.DYN_DIRECTIONS.get(n), "-")) for n in names) + "]")
 
 
+
+# ====================================================================== barline / harmony / print / part-list (Model/XmlBar.lean, Model/XmlPartList.lean)
+def _fref(f):
+    r = f.ref
+    if r is None:
+        return "n"
+    return {"left": "l", "middle": "m", "right": "r"}.get(r, "o") if isinstance(r, str) else "o"
+
+
+def _olist(evs):
+    return "[" + ",".join("%d:%s" % (int(t), xml_text(el)) for (t, _, el) in evs) + "]"
+
+
+def bar_writer_streams(ev, p, a, b, X):
+    """wbar / wharm / wprint: what do_barlines / do_harmony / do_prints return for the segment == doBarlines / writeHarmony /
+    doPrints of the objects the three functions iterate over (the `iter_all` calls are mirrored, nothing else)"""
+    import partitura.score as S
+
+    try:
+        fi = [(f.start.t, _fref(f)) for f in p.iter_all(S.Fermata, a, b)]
+        fa = [(f.start.t, _fref(f)) for f in p.iter_all(S.Fermata, b, b.next)]
+        rs = [o.start.t for o in p.iter_all(S.Repeat, a, b)]
+        es = [(o.start.t, str(o.number)) for o in p.iter_all(S.Ending, a, b)]
+        re_ = [o.end.t for o in p.iter_all(S.Repeat, a.next, b.next, mode="ending")]
+        ee = [(o.end.t, str(o.number)) for o in p.iter_all(S.Ending, a.next, b.next, mode="ending")]
+        res = X.do_barlines(p, a, b)
+        if fi or fa or rs or es or re_ or ee or res:
+            toks = [str(a.t), str(b.t), str(len(fi))] + ["%d %s" % x for x in fi] + [str(len(fa))] + ["%d %s" % x for x in fa]
+            toks += [str(len(rs))] + [str(t) for t in rs] + [str(len(es))] + ["%d %s" % (t, _enc(n)) for t, n in es]
+            toks += [str(len(re_))] + [str(t) for t in re_] + [str(len(ee))] + ["%d %s" % (t, _enc(n)) for t, n in ee]
+            ev.requests.append("wbar " + " ".join(toks))
+            ev.impl.append(_olist(res))
+    except ValueError:
+        pass
+    # ---- harmony: the three loops of do_harmony
+    try:
+        src = [("rn", h) for h in p.iter_all(S.RomanNumeral, a, b)] + [("cs", h) for h in p.iter_all(S.ChordSymbol, a, b)]
+        cads = list(p.iter_all(S.Cadence, a, b))
+        if all(isinstance(h.text, str) for h in cads):  # "|" + None raises in the exporter
+            src += [("cad", h) for h in cads]
+            res = X.do_harmony(p, a, b)
+            if len(res) != len(src):
+                ev.requests.append("wharm mismatch-of-lengths")
+                ev.impl.append("harness: the harmony sources do not mirror do_harmony")
+            for (k, h), (_, _, el) in zip(src, res):
+                if k == "rn":
+                    req = "rn %s" % _enc(h.text)
+                elif k == "cs":
+                    req = "cs %s %s %s" % (_enc(h.root), _eopt(_enc, h.kind), _eopt(_enc, h.bass))
+                else:
+                    req = "cad %s" % _enc(h.text)
+                ev.requests.append("wharm " + req)
+                ev.impl.append(xml_text(el) + "/1")
+                # charm: what the theorem harmony_roundtrip says the importer makes of it == what it makes of it
+                ev.requests.append("charm " + req)
+                ev.impl.append(harmony_read_text(el))
+    except ValueError:
+        pass
+    # ---- print
+    try:
+        pages = [o.start.t for o in p.iter_all(S.Page, a, b)]
+        systems = [o.start.t for o in p.iter_all(S.System, a, b)]
+        if pages or systems:
+            ev.requests.append("wprint %d %s %d %s" % (len(pages), " ".join(map(str, pages)), len(systems), " ".join(map(str, systems))))
+            ev.impl.append(_olist(X.do_prints(p, a, b)))
+    except ValueError:
+        pass
+
+
+def harmony_read_text(el):
+    """what _handle_harmony adds to a scratch part for one <harmony> element (canonical text), "err" when it raises"""
+    import partitura.score as S
+    import partitura.io.importmusicxml as I
+
+    scratch = S.Part("scratch", quarter_duration=1)
+    try:
+        I._handle_harmony(el, 0, scratch)
+    except Exception:
+        return "err"
+    out = ["cad:%s" % _eopt(_enc, o.text) for o in scratch.iter_all(S.Cadence)]
+    out += ["rn:%s" % _enc(o.text) for o in scratch.iter_all(S.RomanNumeral)]
+    out += ["cs:%s:%s:%s" % (_enc(o.root), _eopt(_enc, o.kind), _eopt(_enc, o.bass)) for o in scratch.iter_all(S.ChordSymbol)]
+    return "[" + ",".join(out) + "]"
+
+
+def _both_ends(part, cls):
+    objs = {}
+    for o in list(part.iter_all(cls)) + list(part.iter_all(cls, mode="ending")):
+        objs[id(o)] = o
+    return list(objs.values())
+
+
+def _tt(tp):
+    return "-" if tp is None else str(tp.t)
+
+
+def bar_state_text(part):
+    """the repeats, endings, barline fermatas and barline styles of a (scratch) part, as drv_c03 prints a BarState"""
+    import partitura.score as S
+
+    reps = sorted("(%s,%s)" % (_tt(o.start), _tt(o.end)) for o in _both_ends(part, S.Repeat))
+    ends = sorted("(%s,%s,%s)" % (_eopt(_enc, o.number), _tt(o.start), _tt(o.end)) for o in _both_ends(part, S.Ending))
+    ferms = sorted("(%d,%s)" % (o.start.t, _eopt(_enc, o.ref)) for o in part.iter_all(S.Fermata) if o.ref is None or isinstance(o.ref, str))
+    styles = sorted("(%d,%s)" % (o.start.t, _enc(o.style or "")) for o in part.iter_all(S.Barline))
+    return "([%s],[%s],[%s],[%s])" % (",".join(reps), ",".join(ends), ",".join(ferms), ",".join(styles))
+
+
+def run_bar_measures(measures):
+    """measures: [[("b", d) | ("f", d) | ("x", barline element)]].  The importer's own _handle_measure on <measure> elements that
+    hold exactly these children, one after the other on a scratch part -> bar_state_text; and the request for drv_c03"""
+    import copy
+    import partitura.score as S
+    import partitura.io.importmusicxml as I
+    from lxml import etree
+
+    scratch = S.Part("scratch", quarter_duration=1)
+    ongoing = {}
+    position, doc_order = 0, 0
+    toks = [str(len(measures))]
+    for k, evs in enumerate(measures):
+        m_el = etree.Element("measure", number=str(k + 1))
+        toks.append(str(len(evs)))
+        for e in evs:
+            if e[0] in "bf":
+                c = etree.SubElement(m_el, "backup" if e[0] == "b" else "forward")
+                etree.SubElement(c, "duration").text = str(e[1])
+                toks += [e[0], str(e[1])]
+            else:
+                m_el.append(copy.deepcopy(e[1]))
+                toks += ["x"] + xml_tokens(e[1])
+        position, doc_order = I._handle_measure(m_el, position, scratch, ongoing, doc_order, k + 1)
+    return "bars " + " ".join(toks), bar_state_text(scratch)
+
+
+def bar_reader_streams(ev, wms, measures2):
+    """bars: the <barline> elements of a written part with the <backup>/<forward>/<note> durations that move the position
+    between them -> readBarMeasures == what _handle_measure makes of them;  cbar: the children of a written barline that its
+    reading accounts for == its children (barline_items_recovered);  rharm: readHarmony == _handle_harmony on every
+    <harmony> written;  prints: readPrints == _handle_print on the <print> elements with the starts of their measures"""
+    import partitura.score as S
+    import partitura.io.importmusicxml as I
+
+    ms, any_bar = [], False
+    prints = []
+    for mi, (_, evs) in enumerate(wms):
+        cur = []
+        for e in evs:
+            if e[0] == "n":
+                if not e[3]:  # a <chord/> note does not move the position
+                    cur.append(("f", e[2]))
+            elif e[0] in "bf":
+                cur.append((e[0], e[1]))
+            elif e[3].tag == "barline":
+                cur.append(("x", e[3]))
+                any_bar = True
+                cbar_stream(ev, e[3])
+            elif e[3].tag == "harmony":
+                try:
+                    ev.requests.append("rharm " + " ".join(xml_tokens(e[3])))
+                    ev.impl.append(harmony_read_text(e[3]))
+                except ValueError:
+                    ev.requests.pop()
+            elif e[3].tag == "print" and mi < len(measures2):
+                prints.append((measures2[mi].start.t, e[3]))
+        ms.append(cur)
+    if any_bar:
+        try:
+            req, want = run_bar_measures(ms)
+            ev.requests.append(req)
+            ev.impl.append(want)
+        except ValueError:
+            pass
+    if prints:
+        print_stream(ev, prints)
+
+
+def cbar_stream(ev, el):
+    """a <barline> the exporter wrote: writeBarline of its children == the element; BarSimple == at most one fermata, repeat
+    and ending; the children its reading accounts for == (own computation) the fermata, the first repeat, the first ending"""
+    items = []
+    for c in _kids(el):
+        if c.tag == "fermata" and not c.attrib:
+            items.append(("F",))
+        elif c.tag == "repeat" and dict(c.attrib) in ({"direction": "forward"}, {"direction": "backward"}):
+            items.append(("RF",) if c.get("direction") == "forward" else ("RB",))
+        elif c.tag == "ending" and list(c.attrib) == ["type", "number"] and c.get("type") in ("start", "stop"):
+            items.append(("ES" if c.get("type") == "start" else "EP", c.get("number")))
+        else:
+            return
+    loc = {"left": "l", "right": "r", "middle": "m"}.get(el.get("location"))
+    if loc is None or list(el.attrib) != ["location"]:
+        return
+    ferm = [i for i in items if i[0] == "F"]
+    reps = [i for i in items if i[0] in ("RF", "RB")]
+    ends = [i for i in items if i[0] in ("ES", "EP")]
+    simple = len(ferm) <= 1 and len(reps) <= 1 and len(ends) <= 1
+    rec = ferm[:1] + [i for i in reps[:1] if i[0] == "RF"] + [i for i in ends[:1] if i[0] == "ES"]
+    rec += [i for i in reps[:1] if i[0] == "RB"] + [i for i in ends[:1] if i[0] == "EP"]
+    try:
+        req = "cbar %s %d %s" % (loc, len(items), " ".join(i[0] if len(i) == 1 else "%s %s" % (i[0], _enc(i[1])) for i in items))
+        want = "%s/%s/[%s]" % (xml_text(el), W.b(simple), ",".join(i[0] if len(i) == 1 else "%s:%s" % (i[0], _enc(i[1])) for i in rec))
+    except ValueError:
+        return
+    ev.requests.append(req)
+    ev.impl.append(want)
+
+
+def print_stream(ev, prints):
+    import partitura.score as S
+    import partitura.io.importmusicxml as I
+
+    scratch = S.Part("scratch", quarter_duration=1)
+    ongoing = {}
+    I._handle_new_page(0, scratch, ongoing)
+    I._handle_new_system(0, scratch, ongoing)
+    for t, el in prints:
+        I._handle_print(el, t, scratch, ongoing)
+    try:
+        ev.requests.append("prints %d %s" % (len(prints), " ".join("%d %s" % (t, " ".join(xml_tokens(el))) for t, el in prints)))
+    except ValueError:
+        return
+
+    def objs(cls):
+        return "[" + ",".join(sorted("(%d,%d,%s)" % (o.number, o.start.t, _tt(o.end)) for o in _both_ends(scratch, cls))) + "]"
+
+    ev.impl.append("(%s,%s)" % (objs(S.Page), objs(S.System)))
+
+
+def forest_text(structure):
+    import partitura.score as S
+
+    out = []
+    for x in structure:
+        if isinstance(x, S.PartGroup):
+            out.append("g(%s,%s,%s)[%s]" % (_eopt(W.i, x.number), _eopt(_enc, x.group_symbol), _eopt(_enc, x.group_name),
+                                            forest_text(x.children)))
+        else:
+            out.append("p(%s,%s,%s)" % (_eopt(_enc, x.id), _eopt(_enc, x.part_name), _eopt(_enc, x.part_abbreviation)))
+    return ",".join(out)
+
+
+def partlist_read_stream(ev, partlist_el):
+    """rpl: parsePartList of the children of a <part-list> == the structure _parse_partlist returns ("err" when it raises)"""
+    import partitura.io.importmusicxml as I
+
+    kids = _kids(partlist_el)
+    try:
+        req = "rpl %d %s" % (len(kids), " ".join(" ".join(xml_tokens(k)) for k in kids))
+    except ValueError:
+        return
+    try:
+        structure, _ = I._parse_partlist(partlist_el)
+        want = "[" + forest_text(structure) + "]"
+    except Exception:
+        want = "err"
+    ev.requests.append(req)
+    ev.impl.append(want)
+
+
+def partlist_streams(ev, s, root):
+    """wpl: the children of the <part-list> written == plXml of writePartList of the parts with their parent chains"""
+    partlist_el = root.find("part-list")
+    if partlist_el is None:
+        return
+    gids = {}
+    toks = [str(len(s.parts))]
+    try:
+        for p in s.parts:
+            chain = []
+            pg = p.parent
+            while pg:
+                chain.append(pg)
+                pg = pg.parent
+            toks += [_enc(p.id), _eopt(_enc, p.part_name), _eopt(_enc, p.part_abbreviation), str(len(chain))]
+            for g in chain:
+                toks += [str(gids.setdefault(id(g), len(gids))), _enc("{}".format(g.number)), _eopt(_enc, g.group_symbol),
+                         _eopt(_enc, g.group_name)]
+        ev.requests.append("wpl " + " ".join(toks))
+        ev.impl.append("[" + ",".join(xml_text(k) for k in _kids(partlist_el)) + "]")
+    except (ValueError, TypeError):
+        pass
+    partlist_read_stream(ev, partlist_el)
+
+
+
+# ====================================================================== element-level cases (reader side, every branch)
+def _xj(tag, attrs=None, text=None, kids=None):
+    return [tag, attrs or {}, text, kids or []]
+
+
+def el_from_json(j):
+    from lxml import etree
+
+    e = etree.Element(j[0])
+    for k, v in j[1].items():
+        e.set(k, v)
+    if j[2] is not None:
+        e.text = j[2]
+    for c in j[3]:
+        e.append(el_from_json(c))
+    return e
+
+
+def gen_barline_json(rng):
+    attrs = {}
+    loc = rng.choice(["left", "right", "middle", None, None, "foo"])
+    if loc is not None:
+        attrs["location"] = loc
+    kids = []
+    pool = ["repeat", "ending", "fermata", "bar-style", "repeat", "ending", "segno"]
+    for _ in range(rng.choice([0, 1, 1, 1, 2, 2, 3, 4])):
+        k = rng.choice(pool)
+        if k == "repeat":
+            d = rng.choice(["forward", "backward", "forward", "backward", None, "x"])
+            kids.append(_xj("repeat", {} if d is None else {"direction": d}))
+        elif k == "ending":
+            t = rng.choice(["start", "stop", "discontinue", "start", "stop", None, "x"])
+            a = {} if t is None else {"type": t}
+            n = rng.choice(["1", "2", "1, 2", None, "12"])
+            if n is not None:
+                a["number"] = n
+            kids.append(_xj("ending", a))
+        elif k == "fermata":
+            kids.append(_xj("fermata"))
+        elif k == "bar-style":
+            kids.append(_xj("bar-style", {}, rng.choice(["light-heavy", "heavy", None, "dashed"])))
+        else:
+            kids.append(_xj(k))
+    return _xj("barline", attrs, None, kids)
+
+
+def gen_elems(rng):
+    d = {"k": "elems"}
+    # ---- measures of backup / forward / barline
+    ms = []
+    for _ in range(rng.randint(1, 5)):
+        evs = []
+        for _ in range(rng.choice([0, 1, 2, 3, 4, 6])):
+            r = rng.random()
+            if r < 0.35:
+                evs.append(["f", rng.choice([1, 2, 4, 8])])
+            elif r < 0.5:
+                evs.append(["b", rng.choice([1, 2, 4, 8, 100])])
+            else:
+                evs.append(["x", gen_barline_json(rng)])
+        ms.append(evs)
+    d["bars"] = ms
+    # ---- harmony elements
+    hs = []
+    for _ in range(rng.randint(0, 4)):
+        kids = []
+        r = rng.random()
+        if r < 0.55:
+            kids.append(_xj("function", {}, rng.choice([None, "V7", "I", "ii6", "V|PAC", "|HC", "|iac", "I|pac:x", "ii|xx|yy", "|", "|12",
+                                                       "a|b|c", "||", "V65|Half cadence HC", "IV|miacx", "viio|ec"])))
+        if rng.random() < 0.7:
+            a = {}
+            if rng.random() < 0.8:
+                a["text"] = rng.choice(["", "maj7", "m", "7", "dim"])
+            kids.append(_xj("kind", a, rng.choice(["none", None, "major"])))
+        if rng.random() < 0.6:
+            rk = []
+            if rng.random() < 0.85:
+                rk.append(_xj("root-step", {}, rng.choice(["C", "D", "G", "F", None])))
+            kids.append(_xj("root", {}, None, rk))
+        if rng.random() < 0.3:
+            bk = []
+            if rng.random() < 0.85:
+                bk.append(_xj("bass-step", {}, rng.choice(["E", "B", None])))
+            kids.append(_xj("bass", {}, None, bk))
+        rng.shuffle(kids)
+        hs.append(_xj("harmony", {"print_frame": "no"} if rng.random() < 0.5 else {}, None, kids))
+    d["harm"] = hs
+    # ---- print elements at the starts of successive measures
+    ps, t = [], 0
+    for _ in range(rng.randint(0, 6)):
+        a = {}
+        if rng.random() < 0.5:
+            a["new-page"] = rng.choice(["yes", "yes", "no"])
+        if rng.random() < 0.6:
+            a["new-system"] = rng.choice(["yes", "yes", "no"])
+        if rng.random() < 0.2:
+            a["page-number"] = "3"
+        ps.append([t, _xj("print", a)])
+        t += rng.choice([0, 4, 4, 8, 16])
+    d["prints"] = ps
+    # ---- children of a <part-list>: mostly balanced, sometimes not
+    pl, depth, pid = [], 0, 0
+    for _ in range(rng.randint(0, 9)):
+        r = rng.random()
+        if r < 0.3 and depth < 3:
+            a = {"type": "start"}
+            n = rng.choice(["1", "2", "3", None, "x", "-1"])
+            if n is not None:
+                a["number"] = n
+            kids = []
+            if rng.random() < 0.6:
+                kids.append(_xj("group-symbol", {}, rng.choice(["brace", "bracket", None, "line"])))
+            if rng.random() < 0.5:
+                kids.append(_xj("group-name", {}, rng.choice(["Strings", "All & more", None])))
+            pl.append(_xj("part-group", a, None, kids))
+            depth += 1
+        elif r < 0.55 and (depth > 0 or rng.random() < 0.2):
+            pl.append(_xj("part-group", {"type": rng.choice(["stop", "stop", "stop", "x"]), "number": "1"} if rng.random() < 0.9 else {}))
+            depth = max(0, depth - 1)
+        elif r < 0.95:
+            pid += 1
+            a = {"id": "P%d" % pid} if rng.random() < 0.95 else {}
+            kids = []
+            for _ in range(rng.choice([0, 1, 1, 1, 2])):
+                kids.append(_xj("part-name", {}, rng.choice(["Piano", "Vl. & Vc <1>", None, "P", "MusicXML Part"])))
+            if rng.random() < 0.3:
+                kids.append(_xj("part-abbreviation", {}, rng.choice(["Pno.", None])))
+            if rng.random() < 0.1:
+                kids.append(_xj("score-instrument", {"id": "I1"}))
+            pl.append(_xj("score-part", a, None, kids))
+        else:
+            pl.append(_xj("other-thing"))
+    if rng.random() < 0.8:
+        while depth > 0:
+            pl.append(_xj("part-group", {"type": "stop", "number": "1"}))
+            depth -= 1
+    d["pl"] = pl
+    return d
+
+
+def eval_elems(desc):
+    """the importer's own handlers on generated elements (well formed or not) against the model readers"""
+    from lxml import etree
+
+    ev = Eval()
+    ms = [[(e[0], e[1]) if e[0] in "bf" else ("x", el_from_json(e[1])) for e in m] for m in desc.get("bars", [])]
+    if ms:
+        try:
+            req, want = run_bar_measures(ms)
+            ev.requests.append(req)
+            ev.impl.append(want)
+        except ValueError:
+            pass
+    for j in desc.get("harm", []):
+        el = el_from_json(j)
+        try:
+            ev.requests.append("rharm " + " ".join(xml_tokens(el)))
+            ev.impl.append(harmony_read_text(el))
+        except ValueError:
+            ev.requests.pop()
+    if desc.get("prints"):
+        print_stream(ev, [(t, el_from_json(j)) for t, j in desc["prints"]])
+    if desc.get("pl") is not None:
+        pl = etree.Element("part-list")
+        for j in desc["pl"]:
+            pl.append(el_from_json(j))
+        partlist_read_stream(ev, pl)
+    shape = (len(ms), sum(1 for m in ms for e in m if e[0] == "x"), len(desc.get("harm", [])), len(desc.get("prints", [])), len(desc.get("pl", [])))
+    ev.key = "elems:%d:%d:%d:%d:%d" % shape
+    return ev
+
+
 # ====================================================================== what the writer model is given
 def measure_segments(part, measure):
     """the split of linearize_measure_contents (time points where the quarter duration changes)"""
@@ -1528,8 +2056,9 @@ def measure_segments(part, measure):
     return list(zip(splits[:-1], splits[1:]))
 
 
-def model_measure(part, measure, idx, X):
-    """request tokens of one MeasureContent"""
+def model_measure(part, measure, idx, X, placed=None):
+    """request tokens of one MeasureContent (`placed`, when given, collects onset, rank and signature of the other
+    elements in the order they are written)"""
     import partitura.score as S
 
     segs = measure_segments(part, measure)
@@ -1553,6 +2082,9 @@ def model_measure(part, measure, idx, X):
         toks.append(str(len(others)))
         for (t, _, el) in others:
             toks += [str(int(t)), str(ORDER.get(el.tag, len(ORDER))), _sig(el)]
+        if placed is not None:
+            # the order merge_with_voice gives them: by onset, inside an onset by rank (stable)
+            placed.extend(sorted(((int(t), ORDER.get(el.tag, len(ORDER)), _sig(el)) for (t, _, el) in others), key=lambda x: x[:2]))
     return " ".join(toks)
 
 
@@ -1679,6 +2211,8 @@ def cases(rng, tier):
     nn = {"quick": 60, "thorough": 1500, "search": 150}.get(tier, 60)
     for i in range(nn):
         yield gen_numeric(rng)
+    for i in range({"quick": 150, "thorough": 6000, "search": 300}.get(tier, 150)):
+        yield gen_elems(rng)
     for i in range(n):
         yield gen_score(rng, big=(i % 5 == 0))
 
@@ -1741,6 +2275,8 @@ def evaluate(desc):
     warnings.filterwarnings("ignore")
     if desc["k"] == "fixture":
         return eval_fixture(desc)
+    if desc["k"] == "elems":
+        return eval_elems(desc)
     return eval_score(desc)
 
 
@@ -1863,8 +2399,10 @@ def _check_roundtrip(ev, s, what, streams, from_file):
         written2 = None
     articulation_tables(ev, X)
     dyn_table(ev, X)
-    for (pid, wms) in written:
+    partlist_streams(ev, s, root)
+    for (pid, wms), p2 in zip(written, s2.parts):
         reader_streams(ev, wms)
+        bar_reader_streams(ev, wms, list(p2.iter_all(S.Measure)))
     range_streams(ev, s, s2, written, X)
     for p, (pid, wms), p2 in zip(s.parts, written, s2.parts):
         notes = list(p.iter_all(S.GenericNote, include_subclasses=True))
@@ -1888,9 +2426,14 @@ def _check_roundtrip(ev, s, what, streams, from_file):
             note_streams(ev, p, wms, loaded, {n.id: n for n in notes}, idx_of, wms2)
         for mi, (m, (_, evs)) in enumerate(zip(measures, wms)):
             # (i) writer model
-            mm = model_measure(p, m, idx, X)
+            placed = []
+            mm = model_measure(p, m, idx, X, placed)
             ev.requests.append("lin " + mm)
             ev.impl.append(ev_text(evs, idx_of))
+            if not issues and placed:
+                # others_in_place: the importer's reader meets every non-note child at the onset the exporter wrote it for
+                ev.requests.append("otr %d %d %s" % (m.start.t, m.end.t, ev_tokens(evs, idx_of)))
+                ev.impl.append("[%s]/1" % ",".join("%d:%d:%s" % x for x in placed))
             if not issues:
                 # the hypothesis of the theorem `reader_writer` holds for every measure of a score in the domain
                 ev.requests.append("wf " + mm)
@@ -2006,6 +2549,7 @@ def range_streams(ev, s, s2, written, X):
                 res = X.do_directions(p, a, b, counter)
                 dir_writer_streams(ev, dir_sources(p, a, b, X), res, X)
                 attr_writer_streams(ev, p, a, b, X)
+                bar_writer_streams(ev, p, a, b, X)
                 # processing order: the starting directions of the segment, then the ending ones
                 starts = [d for d in p.iter_all(S.Direction, a, b, include_subclasses=True)]
                 nend = sum(1 for _ in p.iter_all(S.DynamicDirection, a.next, b.next, include_subclasses=True, mode="ending")) if a.next is not None else 0
@@ -2130,6 +2674,11 @@ def domain_issues(s):
         for o in list(p.iter_all(S.Repeat)) + list(p.iter_all(S.Ending)):
             if o.start is None or o.end is None:
                 out.append("a half-open repeat or ending")
+            elif any(t in qt[1:] and t not in mstarts for t in (o.start.t, o.end.t)):
+                # do_barlines is called per divisions segment: the location written is relative to the segment
+                out.append("a mid-measure repeat or ending on a change of divisions")
+        if any(o.text is None for o in p.iter_all(S.Cadence)):
+            out.append("a cadence of no known type")
     if len(set(all_ids)) != len(all_ids):
         out.append("duplicate note ids")  # the exporter renames them (one counter for the whole file)
     return sorted(set(out))
@@ -2226,4 +2775,41 @@ def distribution(descs, results):
                         r = repr(float(e[3]["bpm"]))
                         feats["tempo:" + ("exponent" if "e" in r else "whole" if r.endswith(".0") else "%d+ digits" % (5 * (len(r.replace(".", "").lstrip("0")) // 5)))] += 1
     req = Counter(r["requests"][i].split(" ")[0] for r in results for i in range(len(r["requests"])))
-    return {"by_kind": dict(c), "features": dict(feats), "requests": dict(req)}
+    # branches reached by the streams of the element models (barline / harmony / print / part-list / positions)
+    br = Counter()
+    for r in results:
+        for q, im in zip(r["requests"], r["impl"]):
+            if not isinstance(im, str):
+                continue
+            k = q.split(" ", 1)[0]
+            if k == "rharm":
+                br["rharm:" + ("raises" if im == "err" else "nothing" if im == "[]" else "+".join(sorted(set(x.split(":")[0] for x in im[1:-1].split(",")))))] += 1
+            elif k == "wharm":
+                br["wharm:" + q.split(" ")[1]] += 1
+            elif k == "rpl":
+                depth = max((im[:i].count("[") - im[:i].count("]") for i in range(len(im))), default=0) - 1
+                br["rpl:" + ("raises" if im == "err" else "flat" if depth <= 0 else "nested%d" % min(depth, 3))] += 1
+            elif k == "wpl":
+                br["wpl:groups=%d" % min(3, q.count(" brace ") + q.count(" bracket ") + q.count(" - - "))] += 1
+            elif k == "bars":
+                reps, ends, ferms, styles = im[1:-1].split("],[") if im.count("],[") == 3 else ("", "", "", "")
+                for name, txt in (("repeat", reps), ("ending", ends)):
+                    if "(-," in txt or ",-,-)" in txt or txt.strip("[(").startswith("-,"):
+                        br["bars:half-open-" + name] += 1
+                    if ",-)" in txt:
+                        br["bars:unclosed-" + name] += 1
+                for name, txt in (("repeat", reps), ("ending", ends), ("fermata", ferms), ("style", styles)):
+                    if txt.strip("[]"):
+                        br["bars:" + name] += 1
+                if ",-)" in ferms:
+                    br["bars:fermata-without-location"] += 1
+            elif k == "cbar":
+                br["cbar:" + ("simple" if "/1/" in im else "two-of-a-kind")] += 1
+                br["cbar:location=" + q.split(" ")[1]] += 1
+            elif k == "wbar":
+                br["wbar:barlines=%d" % min(3, im.count("(barline;"))] += 1
+            elif k == "prints":
+                br["prints:pages=%d" % min(3, im.split("],[")[0].count("(") - 1)] += 1
+            elif k == "otr":
+                br["otr:others=%d" % min(4, im.count(":") // 2)] += 1
+    return {"by_kind": dict(c), "features": dict(feats), "requests": dict(req), "branches": dict(br)}
